@@ -8,8 +8,11 @@
    no_reuse tr: no serial was handed out while a command, timer or timeout message still carried it.
    C12_no_reuse_when_few_frames proves it for every run with at most 65 536 frames on the connection,
    C12_no_reuse_holds_across_wrap shows a run that wraps and satisfies it, and C12_refuted_reuse is the run
-   in which it fails (one command without timeout outstanding while the counter goes once round): there the
-   older caller is never answered, not even by the disconnect - recorded as finding C12/serial-reuse. *)
+   in which it fails (one command outstanding while the counter goes once round): there the older caller is
+   never answered, not even by the disconnect; C12_refuted_reuse_timer is the variant with timers, in which
+   the newer caller is answered by the older command's timer.  Recorded as finding C12/serial-reuse.
+   Without the hypothesis there remain: the serial sequence, the other-traffic prefix/equality, no crash, and
+   nobody is answered twice (C12_at_most_one_result). *)
 From Coq Require Import List NArith Bool Arith.
 From JT.Base Require Import Sched.
 From JT.Model Require Import Writer.
@@ -40,7 +43,8 @@ Proof.
 Qed.
 Print Assumptions C12_written_once_fresh_serial.
 
-(* Under no_reuse: a call gets AT MOST one result, only calls that were made get one, and AT LEAST one in
+(* A call gets AT MOST one result - without any hypothesis (C12_at_most_one_result below).  Under no_reuse:
+   only calls that were made get one, and AT LEAST one in
    every quiescent state (no process of the server can move; C13_quiescent_reached: such a state is reached
    from every state within [measure s] server steps): there every call has its result — except a command sent WITHOUT a timeout
    (OverTimeDuration < 0) that waits for its response on a live, idle connection. *)
@@ -60,6 +64,12 @@ Proof.
   now apply returned_in.
 Qed.
 Print Assumptions C12_exactly_one_result.
+
+(* Nobody is answered twice, in any schedule, with or without serial reuse (a reused serial LOSES a caller,
+   C12_refuted_reuse; it never duplicates an answer). *)
+Theorem C12_at_most_one_result : forall s0 sched, NoDup (returned (trace step (init s0) sched)).
+Proof. exact nodup_returned_all. Qed.
+Print Assumptions C12_at_most_one_result.
 
 (* What a caller gets is its own:
    - a response m: the writer has just taken m from msgChan, the command of this very call was written
@@ -195,15 +205,82 @@ Proof.
   change (final step s beat) with (hb s). exact (iter_shift hb n s).
 Qed.
 
+(* One heartbeat on a joined, idle connection advances the serial counter and changes nothing else; so the
+   65 535 heartbeats between the two commands are not evaluated one by one. *)
+Definition idle (s : st) : Prop :=
+  inQ s = [] /\ peer_closed s = false /\ rd s = RRun /\ joined s = true /\ msgQ s = mkchan cap_msg /\
+  conn_closed s = false /\ wr s = WsRun.
+
+Lemma hb_idle : forall s, idle s -> hb s = set_seq s (next_serial (seq s)).
+Proof.
+  intros s (H1 & H2 & H3 & H4 & H5 & H6 & H7). destruct s; simpl in *; subst. reflexivity.
+Qed.
+
+Lemma iter_hb_idle : forall n s, idle s -> Nat.iter n hb s = set_seq s (Nat.iter n next_serial (seq s)).
+Proof.
+  induction n as [|n IH]; intros s Hi.
+  - destruct s; reflexivity.
+  - simpl. rewrite IH by assumption. rewrite hb_idle by exact Hi. reflexivity.
+Qed.
+
+Lemma many_beats : forall n s, idle s ->
+  final step s (beats (N.to_nat n)) = set_seq s (N.iter n next_serial (seq s)).
+Proof.
+  intros n s Hi. rewrite final_beats, iter_hb_idle by assumption. now rewrite <- N2Nat.inj_iter.
+Qed.
+
 Theorem C12_refuted_reuse :
   let s2 := final step (init 0) (reuse_prefix ++ beats (N.to_nat 65535)) in
   let r := run step s2 reuse_suffix in
   rec s2 = [(1, {| c_id := 0; c_cmd := 33027; c_tmo := false |})] /\ seq s2 = 1 /\
   In OReuse (snd r) /\ returns (snd r) = [(1%nat, RNoExist)] /\ ncalls (fst r) = 2%nat /\
-  rd (fst r) = RDone /\ wr (fst r) = WsExit /\ mgrQ (fst r) = [] /\ rec (fst r) = [] /\ timers (fst r) = [].
+  rd (fst r) = RDone /\ wr (fst r) = WsExit /\ mgrQ (fst r) = [] /\ rec (fst r) = [] /\ timers (fst r) = [] /\
+  quiescent (fst r).
 Proof.
   intros s2 r.
-  assert (E : s2 = N.iter 65535 hb (final step (init 0) reuse_prefix)).
-  { unfold s2. rewrite final_app, final_beats. symmetry. apply N2Nat.inj_iter. }
-  unfold r. rewrite E. vm_compute. repeat split; auto.
+  assert (E : s2 = set_seq (final step (init 0) reuse_prefix)
+                           (N.iter 65535 next_serial (seq (final step (init 0) reuse_prefix)))).
+  { unfold s2. rewrite final_app. apply many_beats. repeat split; reflexivity. }
+  assert (F : (rec s2, seq s2, existsb (fun o => match o with OReuse => true | _ => false end) (snd r),
+               returns (snd r), ncalls (fst r), rd (fst r), wr (fst r), mgrQ (fst r), rec (fst r), timers (fst r),
+               quiescentb (fst r)) =
+              ([(1, {| c_id := 0; c_cmd := 33027; c_tmo := false |})], 1, true, [(1%nat, RNoExist)], 2%nat,
+               RDone, WsExit, [], [], [], true)).
+  { unfold r. rewrite E. vm_compute. reflexivity. }
+  injection F as F1 F2 F3 F4 F5 F6 F7 F8 F9 F10 F11.
+  repeat (split; [assumption|]).
+  split.
+  { apply existsb_exists in F3. destruct F3 as [o [Hin Ho]]. destruct o; try discriminate. exact Hin. }
+  repeat (split; [assumption|]).
+  now apply quiescentb_true.
+Qed.
+
+(* The same with timers: command 0 HAS a timeout (its timer sleeps), the counter goes round, command 1 (also
+   with a timeout) is written with command 0's serial and overwrites it.  Then command 0's timer fires: its
+   timeout message carries the shared serial and completes command 1 - caller 1 gets a timeout from a FOREIGN
+   timer (early, if its own duration is longer), caller 0 is never answered, command 1's own timer finds
+   nothing, and the final state is quiescent with the connection still up.  (The trace of the last seven
+   choices: the call, the reuse, the write with serial 1, timer 0 fires, caller 1 gets the timeout, timer 1
+   fires into the void.) *)
+Definition reuse_timer_suffix : list choice :=
+  [Call 33028 true; MgrStep JOk; WAct true; TSend 0; WCpl; TSend 1; WCpl].
+
+Theorem C12_refuted_reuse_timer :
+  let s2 := final step (init 0) (up ++ [Call 33027 true; MgrStep JOk; WAct true] ++ beats (N.to_nat 65535)) in
+  let r := run step s2 reuse_timer_suffix in
+  let c1 := {| c_id := 1; c_cmd := 33028; c_tmo := true |} in
+  rec s2 = [(1, {| c_id := 0; c_cmd := 33027; c_tmo := true |})] /\ timers s2 = [(0%nat, 1)] /\ seq s2 = 1 /\
+  snd r = [OCall c1; OReuse; OWrite 1 c1 true; OFire 0; OReturn 1 RTimeout; OFire 1] /\
+  ncalls (fst r) = 2%nat /\ stop_closed (fst r) = false /\ quiescent (fst r).
+Proof.
+  intros s2 r c1.
+  assert (E : s2 = set_seq (final step (init 0) (up ++ [Call 33027 true; MgrStep JOk; WAct true]))
+                 (N.iter 65535 next_serial (seq (final step (init 0) (up ++ [Call 33027 true; MgrStep JOk; WAct true]))))).
+  { unfold s2. rewrite app_assoc, final_app. apply many_beats. repeat split; reflexivity. }
+  assert (F : (rec s2, timers s2, seq s2, snd r, ncalls (fst r), stop_closed (fst r), quiescentb (fst r)) =
+              ([(1, {| c_id := 0; c_cmd := 33027; c_tmo := true |})], [(0%nat, 1)], 1,
+               [OCall c1; OReuse; OWrite 1 c1 true; OFire 0; OReturn 1 RTimeout; OFire 1], 2%nat, false, true)).
+  { unfold r. rewrite E. vm_compute. reflexivity. }
+  injection F as F1 F2 F3 F4 F5 F6 F7.
+  repeat (split; [assumption|]). now apply quiescentb_true.
 Qed.
